@@ -39,7 +39,6 @@ func runC05(w *World, r *Report, tier string) {
 	ruleExistsLoop(w, r)
 	ruleTreeOverlap(w, r)
 	ruleRangeUse(w, r, det)
-	ruleErrUsed(w, r, det)
 	// single-pair spatial form = array form on two singletons
 	if f := lookupByName(w, "detector.CheckSpatialIdsOverlap"); f != nil {
 		g := lookupByName(w, "detector.CheckSpatialIdsArrayOverlap")
@@ -66,7 +65,6 @@ func runC05(w *World, r *Report, tier string) {
 	for _, n := range []string{"detector.CheckSpatialIdsArrayOverlap", "detector.CheckExtendedSpatialIdsOverlap", "detector.CheckExtendedSpatialIdsArrayOverlap"} {
 		ruleNoPartial(w, r, n)
 	}
-	guardRows(w, r, "C05")
 }
 
 func runC06(w *World, r *Report, tier string) {
